@@ -251,7 +251,8 @@ def filterAux : Cond RArg → DataV → Bool → Except Exc (FD × DataV × Opti
   | .leaf l, d, hasPaths => do
       let info ← l.cls.info
       let raw := if info.readsKeys then d.keys else d.values
-      let data ← if hasPaths then raw.mapM unpack2 else pure raw
+      -- `if data_has_paths [and self.DATUM_TYPE is FilterDatumType.VALUES]: datum, _ = datum`
+      let data ← if hasPaths && !(filterUnpacksValuesOnly && info.readsKeys) then raw.mapM unpack2 else pure raw
       let flags ← data.mapM (evalItem info.pre l.fn l.args l.kwargs)
       if hasPaths then
         let (d', ps) ← extractPaths d
